@@ -738,3 +738,17 @@ package measure
 //@   requires bw != nil && b != nil
 //@   at-stmt "bw.totalMaxTimestamp = tm.max" requires raised-or-first: bw.totalCount == 0 || bm.timestamps.max > bw.totalMaxTimestamp
 //@   at-stmt "bw.totalMinTimestamp = tm.min" requires lowered-or-first: bw.totalCount == 0 || bm.timestamps.min < bw.totalMinTimestamp
+//
+// collectConflictColumns: the set of value types seen for a column is kept under the column's DECODED name (a part written
+// after an earlier conflict carries typed names such as col#int); a new, empty set is stored under a name only when no
+// set is there yet - otherwise the types collected so far would be thrown away and the conflict go unnoticed. Thin.
+//@ func decodeTypedColumn
+//@   property C03
+//@   assumed strips the type suffix of a typed column name
+//@   pure
+//@ func collectConflictColumns#types-are-collected-per-decoded-name
+//@   property C03
+//@   mode int
+//@   opt only-stated
+//@   at-stmt "columnTypes[decoded] = valueTypes" requires a-new-set-never-replaces-an-existing-one: columnTypes[decoded] == nil
+//@   at-stmt "familyColumnTypes[cf] = columnTypes" requires a-new-table-never-replaces-an-existing-one: familyColumnTypes[cf] == nil
